@@ -263,7 +263,16 @@ class Ctx:
         os.makedirs(e["TMPDIR"], exist_ok=True)
         if env:
             e.update({k: str(v) for k, v in env.items()})
-        cmd = ["go", "test", "-tags", tags, "-count=1", "-vet=off", "-timeout", "%ds" % timeout,
+        modflag = []
+        if os.path.realpath(REPO) != "/repo":
+            # alternative tree (mutation testing in a scratch worktree): private go.mod with another replace target
+            mf = os.path.join(self.work, "alt.mod")
+            if not os.path.exists(mf):
+                gm = open(os.path.join(VERIF, "harness", "go.mod")).read().replace("=> /repo", "=> " + os.path.realpath(REPO))
+                open(mf, "w").write(gm)
+                shutil.copy(os.path.join(REPO, "go.sum"), os.path.join(self.work, "alt.sum"))
+            modflag = ["-modfile=" + mf]
+        cmd = ["go", "test"] + modflag + ["-tags", tags, "-count=1", "-vet=off", "-timeout", "%ds" % timeout,
                "-run", "^%s$" % test] + (["-race"] if race else []) + list(extra) + ["./" + pkg]
         t0 = time.time()
         p = subprocess.run(cmd, cwd=os.path.join(VERIF, "harness"), env=e, stdout=subprocess.PIPE,
